@@ -1800,7 +1800,40 @@ def scp_sink_strategy(tier: str):
     return build()
 
 
+def chain_cases(tier: str):
+    """Hand-built programs in which every single request is lexically
+    inside the root and the escape only exists physically: a link target
+    that passes THROUGH an earlier link and then goes up"""
+
+    programs = [
+        # a link to the root, then a target that climbs out through it
+        [['mkdir', b'/deep'], ['mkdir', b'/deep/er'],
+         ['symlink', b'../..', b'/deep/er/up'],
+         ['symlink', b'deep/er/up/..', b'/l'],
+         ['open', b'/l/escaped.txt', 'w'], ['ls', b'/l']],
+        # the same with an absolute target
+        [['mkdir', b'/deep'], ['symlink', b'..', b'/deep/up'],
+         ['symlink', b'/deep/up/..', b'/l'],
+         ['open', b'/l/escaped.txt', 'w'], ['stat', b'/l/outside']],
+        # no second link: the path of the request itself climbs through
+        [['mkdir', b'/deep'], ['symlink', b'..', b'/deep/up'],
+         ['open', b'/deep/up/../escaped.txt', 'w'],
+         ['ls', b'/deep/up/..'], ['mkdir', b'/deep/up/../newdir']],
+        # through a link, down, and up twice
+        [['mkdir', b'/a'], ['mkdir', b'/a/b'], ['symlink', b'/', b'/a/b/r'],
+         ['symlink', b'a/b/r/a/../..', b'/m'],
+         ['open', b'/m/escaped.txt', 'w'], ['remove', b'/m/outside/canary.txt']],
+    ]
+
+    for v in (3, 6):
+        for driver in ('raw', 'api'):
+            for ops in programs:
+                yield {'v': v, 'driver': driver, 'ops': ops}
+
+
 FAMILIES = [
+    Family('chains', run_chroot, enumerate=chain_cases, exhaustive=True,
+           required={'all': ['symlink-created', 'raw', 'api']}),
     Family('chroot', run_chroot, strategy=chroot_strategy,
            budget={'quick': 1200, 'thorough': 20000},
            required={'all': ['op:' + k for k in OP_KINDS] +
